@@ -85,13 +85,18 @@ class PropertyRun:
         pinfo = self.reg.properties.get(self.pid, {})
         funcs = [q for q, c in self.reg.contracts.items() if self.pid in c.props and not c.trusted]
         timeout_ms = 10000 if self.tier == "quick" else 60000
+        from concurrent.futures import ThreadPoolExecutor
+
+        pool = ThreadPoolExecutor(max_workers=6)
+        bfuts = [(b, pool.submit(run_concrete, "bounded", b["module"], b["func"], {"tier": self.tier, "seed": self.seed}, b.get("timeout", 1800))) for b in pinfo.get("bounded", [])]
         for q in funcs:
             self.verify_one(q, floor, known, timeout_ms)
         for q, c in self.reg.contracts.items():
             if c.trusted and (self.pid in c.props or any(q in (f.get("callees") or []) for f in self.functions)):
                 self.trusted.add(f"trusted contract: {q} ({c.note or c.path})")
-        for b in pinfo.get("bounded", []):
-            self.run_bounded(b)
+        for b, fut in bfuts:
+            self.run_bounded(b, fut.result())
+        pool.shutdown()
         self.replay_known(known)
         if not funcs and not pinfo.get("bounded"):
             self.checker_errors.append("no function under contract for this property")
@@ -237,8 +242,7 @@ class PropertyRun:
         return path
 
     # ------------------------------------------------------------------
-    def run_bounded(self, b: dict):
-        res = run_concrete("bounded", b["module"], b["func"], {"tier": self.tier, "seed": self.seed}, timeout=b.get("timeout", 900))
+    def run_bounded(self, b: dict, res: dict):
         entry = {"name": b["name"], "scope": res.get("scope", b.get("scope", "")), "cases": res.get("cases", 0), "exhaustive": bool(res.get("exhaustive")), "status": res.get("status"), "label": "bounded"}
         self.bounded.append(entry)
         if res.get("status") == "violation":
@@ -265,7 +269,10 @@ class PropertyRun:
 
     # ------------------------------------------------------------------
     def write_evidence(self, wall: float, pinfo: dict):
-        os.makedirs(os.path.join(ROOT, "evidence"), exist_ok=True)
+        evdir = os.path.join(ROOT, "evidence")
+        if os.path.realpath(extract.REPO) != "/repo":
+            evdir = os.path.join(ROOT, ".scratch", "evidence")  # runs against scratch copies never touch committed evidence
+        os.makedirs(evdir, exist_ok=True)
         proof = self.n_obl > 0 and self.n_dis == self.n_obl and not self.violations and not self.undecided and not self.checker_errors
         level = pinfo.get("level", "proof") if proof else "other"
         cov = {
@@ -296,7 +303,7 @@ class PropertyRun:
             "wall_s": round(wall, 2),
             "violations": len(self.violations),
         }
-        with open(os.path.join(ROOT, "evidence", f"{self.pid}.json"), "w") as f:
+        with open(os.path.join(evdir, f"{self.pid}.json"), "w") as f:
             json.dump(ev, f, indent=1, default=str)
 
 
